@@ -204,7 +204,7 @@ def replay_split(d):
     return (not p), "seed %s: %s" % (d["inputs"]["seed"], p or "every alignment grouped as the table says")
 
 
-@bounded("C09.read_group_table_split", ["C09"], note="real split_read_group_table on a pysam-written BAM with 2-3 references where some reads "
+@bounded("C09.read_group_table_split", ["C09"], shards=4, note="real split_read_group_table on a pysam-written BAM with 2-3 references where some reads "
          "align to several chromosomes (supplementary records), then the real per-chromosome ReadTableGrouper: every alignment of a read "
          "listed in the user's table must be grouped under the table's entry on every chromosome, unlisted reads under NA")
 def c09_split(tier, rng):
